@@ -54,8 +54,33 @@ def bracketsOK : List HEvent → List HEvent → Bool
     (if endsWith e.type (S "StateExited") then decide (countExited e.name seen' ≤ countEntered e.name seen') else true)
       && bracketsOK seen' es
 
+/-- event types that record the failure of a Parallel / Map state, one of its iterations, or the
+cutting short of a sibling -/
+def isFanFailureType (t : Str) : Bool :=
+  endsWith t (S "StateFailed") || endsWith t (S "IterationFailed") || endsWith t (S "Aborted")
+
+def endsSucceeded (h : List HEvent) : Bool :=
+  match h.getLast? with
+  | some e => e.type = S "ExecutionSucceeded"
+  | none => false
+
+/-- in an execution that SUCCEEDED and in which no Parallel / Map state failed or was retried, no state
+failed without being caught and none was cut short: every StateEntered has its StateExited -/
+def countType (t : Str) (h : List HEvent) : Nat := (h.filter (fun e => e.type = t)).length
+
+/-- a Parallel / Map state was re-run by its Retry (its failed attempt logs no `…StateFailed`): it
+was started more often than it was entered -/
+def fanRetried (h : List HEvent) : Bool :=
+  decide (countType (S "ParallelStateStarted") h > countType (S "ParallelStateEntered") h) ||
+  decide (countType (S "MapStateStarted") h > countType (S "MapStateEntered") h)
+
+def balancedIfClean (h : List HEvent) : Bool :=
+  if endsSucceeded h && !(h.any (fun e => isFanFailureType e.type)) && !fanRetried h then
+    h.all (fun e => if endsWith e.type (S "StateEntered") then countEntered e.name h == countExited e.name h else true)
+  else true
+
 def WFHistory (h : List HEvent) : Bool :=
-  numbered h 0 && tsMonotone h && terminalLast h && startsWithStarted h && bracketsOK [] h
+  numbered h 0 && tsMonotone h && terminalLast h && startsWithStarted h && bracketsOK [] h && balancedIfClean h
 
 /-! ### the lifecycle automaton of one execution (record + notifications) -/
 
